@@ -176,7 +176,7 @@ pub open spec fn wl_line_delta_fits(from: int, to: int) -> bool {
 /// for which the row's address exists on the target, the machine started in the previous row's registers and run over
 /// exactly `pushed` appends exactly one row, the requested one, and continues in the state the writer remembers.
 pub open spec fn wl_generates(h: LineHdr, base: int, prev: WRow, row: WRow, pushed: Seq<LineOp>) -> bool {
-    0 <= base + prev.address_offset && base + row.address_offset <= addr_max(h) ==> {
+    wl_cond(h, base, prev, row.address_offset) ==> {
         let run = line_run(h, wl_regs(base, prev), pushed);
         &&& !run.err
         &&& run.rows == seq![wl_regs(base, row)]
@@ -187,12 +187,91 @@ pub open spec fn wl_generates(h: LineHdr, base: int, prev: WRow, row: WRow, push
 /// C13 for end_sequence: one row with end_sequence set at (address_offset, op_index), every other register as in the
 /// previous row; then the machine is back in its initial state
 pub open spec fn wl_ends(h: LineHdr, base: int, prev: WRow, address_offset: int, op_index: int, pushed: Seq<LineOp>) -> bool {
-    0 <= base + prev.address_offset && base + address_offset <= addr_max(h) ==> {
+    wl_cond(h, base, prev, address_offset) ==> {
         let run = line_run(h, wl_regs(base, prev), pushed);
         &&& !run.err
         &&& run.rows == seq![LineRegs { address: base + address_offset, op_index: op_index, end_sequence: true, ..wl_regs(base, prev) }]
         &&& run.next == line_initial(h)
     }
+}
+
+// ---------------------------------------------------------------------------------------------------------------
+// proof bookkeeping for a writer call that appends instructions one at a time
+// ---------------------------------------------------------------------------------------------------------------
+
+/// the base addresses a statement about a call quantifies over: the previous row's address exists (>= 0) and the
+/// address `base + limit` the call has to reach exists on the target
+pub open spec fn wl_cond(h: LineHdr, base: int, prev: WRow, limit: int) -> bool {
+    0 <= base + prev.address_offset && base + limit <= addr_max(h)
+}
+
+/// for every admissible base: run from `prev` over `ops`, no row was appended and the machine stands at (relative) row `w`
+pub open spec fn wl_at(h: LineHdr, prev: WRow, limit: int, ops: Seq<LineOp>, w: WRow) -> bool {
+    forall|base: int| wl_cond(h, base, prev, limit) ==>
+        #[trigger] line_run(h, wl_regs(base, prev), ops) == (LineRun { err: false, rows: Seq::empty(), next: wl_regs(base, w) })
+}
+
+pub proof fn lemma_wl_at_start(h: LineHdr, prev: WRow, limit: int)
+    ensures wl_at(h, prev, limit, Seq::<LineOp>::empty(), prev)
+{
+}
+
+pub proof fn lemma_wl_at_push(h: LineHdr, prev: WRow, limit: int, ops: Seq<LineOp>, w: WRow, op: LineOp, w2: WRow)
+    requires
+        wl_at(h, prev, limit, ops, w),
+        forall|base: int| wl_cond(h, base, prev, limit) ==> #[trigger] line_step(h, wl_regs(base, w), op) == (LineStep { err: false, row: None, next: wl_regs(base, w2) }),
+    ensures wl_at(h, prev, limit, ops.push(op), w2)
+{
+    assert forall|base: int| wl_cond(h, base, prev, limit) implies
+        #[trigger] line_run(h, wl_regs(base, prev), ops.push(op)) == (LineRun { err: false, rows: Seq::empty(), next: wl_regs(base, w2) }) by {
+        lemma_run_push(h, wl_regs(base, prev), ops, op);
+        let p = line_run(h, wl_regs(base, prev), ops);
+        let s = line_step(h, wl_regs(base, w), op);
+        assert(p.next == wl_regs(base, w));
+    }
+}
+
+pub proof fn lemma_wl_at_row(h: LineHdr, prev: WRow, ops: Seq<LineOp>, w: WRow, op: LineOp, row: WRow)
+    requires
+        wl_at(h, prev, row.address_offset, ops, w),
+        forall|base: int| wl_cond(h, base, prev, row.address_offset) ==> #[trigger] line_step(h, wl_regs(base, w), op)
+            == (LineStep { err: false, row: Some(wl_regs(base, row)), next: wl_regs(base, wl_after(row)) }),
+    ensures forall|base: int| #[trigger] wl_generates(h, base, prev, row, ops.push(op))
+{
+    assert forall|base: int| #[trigger] wl_generates(h, base, prev, row, ops.push(op)) by {
+        if wl_cond(h, base, prev, row.address_offset) {
+            lemma_run_push(h, wl_regs(base, prev), ops, op);
+            let p = line_run(h, wl_regs(base, prev), ops);
+            let s = line_step(h, wl_regs(base, w), op);
+            assert(p.next == wl_regs(base, w));
+            assert(Seq::<LineRegs>::empty().push(wl_regs(base, row)) =~= seq![wl_regs(base, row)]);
+        }
+    }
+}
+
+pub proof fn lemma_wl_at_end(h: LineHdr, prev: WRow, ops: Seq<LineOp>, w: WRow, op: LineOp, address_offset: int, op_index: int)
+    requires
+        wl_at(h, prev, address_offset, ops, w),
+        forall|base: int| wl_cond(h, base, prev, address_offset) ==> #[trigger] line_step(h, wl_regs(base, w), op)
+            == (LineStep { err: false, row: Some(LineRegs { address: base + address_offset, op_index: op_index, end_sequence: true, ..wl_regs(base, prev) }), next: line_initial(h) }),
+    ensures forall|base: int| #[trigger] wl_ends(h, base, prev, address_offset, op_index, ops.push(op))
+{
+    assert forall|base: int| #[trigger] wl_ends(h, base, prev, address_offset, op_index, ops.push(op)) by {
+        if wl_cond(h, base, prev, address_offset) {
+            lemma_run_push(h, wl_regs(base, prev), ops, op);
+            let p = line_run(h, wl_regs(base, prev), ops);
+            let s = line_step(h, wl_regs(base, w), op);
+            assert(p.next == wl_regs(base, w));
+            let r = LineRegs { address: base + address_offset, op_index: op_index, end_sequence: true, ..wl_regs(base, prev) };
+            assert(Seq::<LineRegs>::empty().push(r) =~= seq![r]);
+        }
+    }
+}
+
+pub proof fn lemma_ops_wf_push(h: LineHdr, ops: Seq<LineOp>, op: LineOp)
+    requires line_ops_wf(h, ops), line_op_wf(h, op)
+    ensures line_ops_wf(h, ops.push(op))
+{
 }
 
 // ---------------------------------------------------------------------------------------------------------------
@@ -251,21 +330,17 @@ pub proof fn lemma_wl_advance_lands(h: LineHdr, base: int, prev: WRow, row: WRow
     lemma_wl_exact_div(row.address_offset - prev.address_offset, d);
     let adv = wl_op_advance(h, prev, row);
     let t = r.op_index + adv;
+    assert(q >= 0);
+    assert(d * q == row.address_offset - prev.address_offset);
     assert(t == q * m + row.op_index);
     if q == 0 {
-        assert(q * m == 0);
+        assert(q * m == 0) by (nonlinear_arith) requires q == 0;
+        assert(d * q == 0) by (nonlinear_arith) requires q == 0;
     } else {
         assert(q * m >= m) by (nonlinear_arith) requires q >= 1, m >= 1;
+        assert(d * q >= 1) by (nonlinear_arith) requires q >= 1, d >= 1;
     }
     lemma_wl_divmod(t, m, q, row.op_index);
-    assert(d * q == row.address_offset - prev.address_offset);
-    if adv == 0 {
-        if q != 0 {
-            assert(q * m >= m) by (nonlinear_arith) requires q >= 1, m >= 1;
-        }
-        assert(q == 0);
-        assert(d * q == 0);
-    }
 }
 
 /// two operation advances in a row are one advance by the sum (DW_LNS_const_add_pc followed by a special opcode)
@@ -348,4 +423,150 @@ pub proof fn lemma_wl_line_add(from: int, to: int)
     if to - from >= 0 {
         lemma_small_mod(to as nat, 0x1_0000_0000_0000_0000);
     }
+}
+
+// ---------------------------------------------------------------------------------------------------------------
+// single steps of the machine as the writer uses them (per base address)
+// ---------------------------------------------------------------------------------------------------------------
+
+/// `w` already agrees with `row` in every register except (address, op_index, line)
+pub open spec fn wl_rest_done(w: WRow, row: WRow) -> bool {
+    w == (WRow { address_offset: w.address_offset, op_index: w.op_index, line: w.line, ..row })
+}
+
+/// where DW_LNS_const_add_pc takes the (relative) row `w`
+pub open spec fn wl_mid(h: LineHdr, w: WRow) -> WRow {
+    let t = w.op_index + wl_const_add_pc_advance(h);
+    WRow { address_offset: w.address_offset + h.min_inst_len * (t / h.max_ops), op_index: t % h.max_ops, ..w }
+}
+
+/// DW_LNS_advance_pc with the computed operation advance lands on the target (address, op_index)
+pub proof fn lemma_wl_step_advance_pc(h: LineHdr, base: int, w: WRow, row: WRow)
+    requires valid_line_hdr(h), wl_row_wf(h, w), wl_row_wf(h, row), wl_ordered(w, row), base + row.address_offset <= addr_max(h)
+    ensures
+        line_step(h, wl_regs(base, w), LineOp::AdvancePc(wl_op_advance(h, w, row)))
+            == (LineStep { err: false, row: None, next: wl_regs(base, WRow { address_offset: row.address_offset, op_index: row.op_index, ..w }) }),
+{
+    lemma_wl_advance_lands(h, base, w, row, wl_regs(base, w));
+}
+
+/// base-independent facts about the row reached by DW_LNS_const_add_pc when the remaining advance is at least its own
+pub proof fn lemma_wl_mid(h: LineHdr, w: WRow, row: WRow)
+    requires
+        valid_line_hdr(h), wl_row_wf(h, w), wl_row_wf(h, row), wl_ordered(w, row),
+        wl_op_advance(h, w, row) >= wl_const_add_pc_advance(h),
+    ensures
+        wl_row_wf(h, wl_mid(h, w)), wl_ordered(wl_mid(h, w), row),
+        wl_op_advance(h, wl_mid(h, w), row) == wl_op_advance(h, w, row) - wl_const_add_pc_advance(h),
+        w.address_offset <= wl_mid(h, w).address_offset <= row.address_offset,
+{
+    let d = h.min_inst_len;
+    let m = h.max_ops;
+    let rr = wl_const_add_pc_advance(h);
+    lemma_wl_op_range(h);
+    let t1 = w.op_index + rr;
+    lemma_line_divmod(t1, m);
+    let q1 = t1 / m;
+    let r1 = t1 % m;
+    let big = (row.address_offset - w.address_offset) / d;
+    lemma_wl_diff_multiple(w.address_offset, row.address_offset, d);
+    lemma_wl_exact_div(row.address_offset - w.address_offset, d);
+    assert(d * big == row.address_offset - w.address_offset);
+    // big * m + row.op >= q1 * m + r1 with row.op < m, r1 >= 0  ==>  big >= q1
+    assert(big * m + row.op_index >= q1 * m + r1) by (nonlinear_arith)
+        requires big * m + row.op_index - w.op_index >= rr, t1 == w.op_index + rr, t1 == m * q1 + r1;
+    if big < q1 {
+        assert(big * m + m <= q1 * m) by (nonlinear_arith) requires big + 1 <= q1, m >= 1;
+    }
+    assert(big >= q1);
+    let mid = wl_mid(h, w);
+    assert(d * q1 >= 0) by (nonlinear_arith) requires d >= 1, q1 >= 0;
+    assert(d * (big - q1) == d * big - d * q1) by (nonlinear_arith);
+    assert(d * (big - q1) >= 0) by (nonlinear_arith) requires d >= 1, big - q1 >= 0;
+    assert(row.address_offset - mid.address_offset == (big - q1) * d + 0) by (nonlinear_arith)
+        requires row.address_offset - mid.address_offset == d * big - d * q1;
+    lemma_wl_divmod(row.address_offset - mid.address_offset, d, big - q1, 0);
+    // mid.address_offset is a multiple of d
+    lemma_wl_exact_div(w.address_offset, d);
+    assert(mid.address_offset == (w.address_offset / d + q1) * d + 0) by (nonlinear_arith)
+        requires mid.address_offset == w.address_offset + d * q1, w.address_offset == d * (w.address_offset / d);
+    lemma_wl_divmod(mid.address_offset, d, w.address_offset / d + q1, 0);
+    assert((big - q1) * m == big * m - q1 * m) by (nonlinear_arith);
+    if big == q1 {
+        assert(big * m == q1 * m);
+    }
+}
+
+/// DW_LNS_const_add_pc from `w` when the remaining advance to `row` is at least its own
+pub proof fn lemma_wl_step_const_add_pc(h: LineHdr, base: int, w: WRow, row: WRow)
+    requires
+        valid_line_hdr(h), wl_row_wf(h, w), wl_row_wf(h, row), wl_ordered(w, row),
+        wl_op_advance(h, w, row) >= wl_const_add_pc_advance(h), base + row.address_offset <= addr_max(h),
+    ensures
+        line_step(h, wl_regs(base, w), LineOp::ConstAddPc) == (LineStep { err: false, row: None, next: wl_regs(base, wl_mid(h, w)) }),
+{
+    lemma_wl_mid(h, w, row);
+    reveal(line_advance);
+}
+
+/// the special opcode `opcode_base + sl + k * line_range` from `w`: line += line_base + sl, advance by k, append the row
+pub proof fn lemma_wl_step_special(h: LineHdr, base: int, w: WRow, row: WRow, sl: int, k: int)
+    requires
+        valid_line_hdr(h), wl_row_wf(h, w), wl_row_wf(h, row), wl_ordered(w, row), wl_rest_done(w, row),
+        k == wl_op_advance(h, w, row), 0 <= sl < h.line_range, h.opcode_base + sl + k * h.line_range <= 255,
+        line_add(w.line, h.line_base + sl) == row.line, base + row.address_offset <= addr_max(h),
+    ensures
+        line_step(h, wl_regs(base, w), LineOp::Special(h.opcode_base + sl + k * h.line_range))
+            == (LineStep { err: false, row: Some(wl_regs(base, row)), next: wl_regs(base, wl_after(row)) }),
+        k >= 0,
+{
+    let r1 = LineRegs { line: row.line, ..wl_regs(base, w) };
+    lemma_wl_advance_lands(h, base, w, row, r1);
+    lemma_wl_special_decomp(h, sl, k);
+}
+
+/// DW_LNS_copy from a state that already is the row
+pub proof fn lemma_wl_step_copy(h: LineHdr, base: int, w: WRow, row: WRow)
+    requires
+        valid_line_hdr(h), wl_row_wf(h, w), wl_row_wf(h, row), wl_ordered(w, row), wl_rest_done(w, row),
+        wl_op_advance(h, w, row) == 0, w.line == row.line,
+    ensures
+        line_step(h, wl_regs(base, w), LineOp::Copy) == (LineStep { err: false, row: Some(wl_regs(base, row)), next: wl_regs(base, wl_after(row)) }),
+        w == row,
+{
+    lemma_wl_advance_lands(h, base, w, row, wl_regs(base, w));
+}
+
+/// a special opcode that advances nothing but is not the default one cannot be confused with it:
+/// opcode_base + sl + k * line_range == opcode_base - line_base  ==>  k == 0 && line_base + sl == 0
+pub proof fn lemma_wl_default_special(h: LineHdr, sl: int, k: int)
+    requires wl_hdr_ok(h), 0 <= sl < h.line_range, 0 <= k, sl + k * h.line_range == -h.line_base
+    ensures k == 0, h.line_base + sl == 0
+{
+    if k >= 1 {
+        assert(k * h.line_range >= h.line_range) by (nonlinear_arith) requires k >= 1, h.line_range >= 1;
+    }
+    assert(k * h.line_range == 0) by (nonlinear_arith) requires k == 0;
+}
+
+/// effect of an instruction that only sets one register (6.2.5.2, 6.2.5.3) on the writer's relative row
+pub open spec fn wl_sets(op: LineOp, w: WRow, w2: WRow) -> bool {
+    match op {
+        LineOp::SetDiscriminator(d) => w2 == (WRow { discriminator: d, ..w }),
+        LineOp::SetBasicBlock => w2 == (WRow { basic_block: true, ..w }),
+        LineOp::SetPrologueEnd => w2 == (WRow { prologue_end: true, ..w }),
+        LineOp::SetEpilogueBegin => w2 == (WRow { epilogue_begin: true, ..w }),
+        LineOp::NegateStmt => w2 == (WRow { is_stmt: !w.is_stmt, ..w }),
+        LineOp::SetFile(f) => w2 == (WRow { file: f, ..w }),
+        LineOp::SetColumn(c) => w2 == (WRow { column: c, ..w }),
+        LineOp::SetIsa(i) => w2 == (WRow { isa: i, ..w }),
+        LineOp::AdvanceLine(s) => w2 == (WRow { line: line_add(w.line, s), ..w }),
+        _ => false,
+    }
+}
+
+pub proof fn lemma_wl_sets_step(h: LineHdr, base: int, op: LineOp, w: WRow, w2: WRow)
+    requires wl_sets(op, w, w2)
+    ensures line_step(h, wl_regs(base, w), op) == (LineStep { err: false, row: None, next: wl_regs(base, w2) })
+{
 }
